@@ -198,7 +198,9 @@ def tets(draw, max_cells=60, parity=None):
             V, C = kuhn(1, 1, 1)
     V = [[float(x) for x in v] for v in V]
     tags = ["base=" + base]
-    ops = draw(st.lists(st.tuples(st.sampled_from(["split14", "remove"]), st.integers(0, 500)), max_size=4))
+    # (many 1-4 splits of few cells give many interior vertices next to a handful of border vertices: with a random numbering
+    #  the border vertices then carry large ids)
+    ops = draw(st.lists(st.tuples(st.sampled_from(["split14", "split14", "remove"]), st.integers(0, 500)), max_size=draw(st.sampled_from([4, 4, 10]))))
     for op, i in ops:
         if len(C) >= max_cells:
             break
